@@ -175,3 +175,17 @@ PROPS["C08"] = dict(
          "5 rankers, 3 CPUs; non-trivial = haystack >= 4 bytes",
     assumptions=SUB_ASSUME + TIER1, trusted=SUB_TRUSTED,
 )
+
+PROPS["C16"] = dict(
+    id="C16", coq_files=MEM_PROOF_FILES + ["Mem/IterProofs.v"] + ALL_SUB_PROOFS + ["Sub/FindIterProofs.v", "Props/C16.v"],
+    gen=gens.gen_c16, oracle=gens.oracle_c16, nontrivial=gens.nontrivial_c16, shrink_fields=[],
+    builds=["debug", "release"], cert="both", compare_trace=False,
+    rule="operation histories over one Finder/FinderRev and their iterators: find/rfind over 7 haystacks per needle (one that exhausts the adaptive "
+         "prefilter, early matches, no match, dense overlaps, empty, shorter than the needle), clone, as_ref, into_owned (after which the original "
+         "needle buffer is overwritten), needle(), find_iter/rfind_iter with next, size_hint, clone and into_owned at arbitrary points; 10 fixed "
+         "histories per needle and seeded random histories of length <= 12; 9 needles (empty, 1 byte, packed range, > 32 bytes periodic and not); "
+         "non-trivial = at least 3 operations",
+    assumptions=SUB_ASSUME + TIER1 + ["clone/as_ref/into_owned are identities on the model's immutable values: that the Rust implementations copy needle, "
+                                      "searcher, pos and prestate is decided by the correspondence on histories"],
+    trusted=SUB_TRUSTED + ["CowBytes, Clone derives and lifetimes are not modelled"],
+)
